@@ -233,13 +233,21 @@ def run (ctx):
   # ethernet.type_parsers registrations
   tp = []; tp_fallback = []
   einit = eth.methods.get('__init__')
-  for t, v, st, k in q.stores_in(einit.node):
-    if isinstance(t, ast.Subscript) and 'type_parsers' in norm(t.value) and isinstance(v, ast.Name):
-      r = _resolve_local_import(repo, einit, v.id)
-      if isinstance(r, Cls): tp.append(r)
-    if isinstance(t, ast.Attribute) and t.attr == '_llc' and isinstance(v, ast.Name):
-      r = _resolve_local_import(repo, einit, v.id)
-      if isinstance(r, Cls): tp.append(r); tp_fallback.append(r)
+  for em_ in eth.methods.values():
+    for t, v, st, k in q.stores_in(em_.node):
+      if isinstance(t, ast.Subscript) and 'type_parsers' in norm(t.value) and isinstance(v, ast.Name):
+        r = _resolve_local_import(repo, em_, v.id)
+        if isinstance(r, Cls): tp.append(r)
+      if isinstance(t, ast.Attribute) and t.attr == '_llc' and isinstance(v, ast.Name):
+        r = _resolve_local_import(repo, em_, v.id)
+        if isinstance(r, Cls): tp.append(r); tp_fallback.append(r)
+    # the table filled in one go: type_parsers.update({TYPE: cls, ...})
+    for c_ in calls_in(em_.node):
+      if call_name(c_) == 'update' and isinstance(c_.func, ast.Attribute) and 'type_parsers' in norm(c_.func.value) and c_.args and isinstance(c_.args[0], ast.Dict):
+        for v in c_.args[0].values:
+          if isinstance(v, ast.Name):
+            r = _resolve_local_import(repo, em_, v.id)
+            if isinstance(r, Cls): tp.append(r)
   ctx.floor('ethertype parsers registered', len(set(c.name for c in tp)), 7)
   def resolve_call (f, c):
     """list of Func possibly invoked by call c inside f"""
@@ -388,7 +396,7 @@ def run (ctx):
       if isinstance(x, ast.Call) and call_name(x) in ('unpack', 'unpack_from') and isinstance(x.func, ast.Attribute) and norm(x.func.value) == 'struct': n_reads += 1
   n_guarded = n_reads - sum(1 for v in local.values() for s in v if s.kind in ('struct', 'width'))
   ctx.stat('struct_reads_on_chains', n_reads); ctx.stat('struct_reads_proved_by_guards', n_guarded)
-  ctx.floor('struct reads on parse chains', n_reads, 50)
+  ctx.floor('struct reads on parse chains', n_reads, 40)
   ctx.floor('struct reads proved in range by guards', n_guarded, 25)
   ctx.ob('R-CONTAIN', root, "no raising primitive escapes ethernet.parse", not seen, "%d raising sites on %d functions, all guarded or contained" % (n_sites, len(local)) if not seen else "%d site(s) escape" % len(seen), root, 'D1')
   # ---- D1b Python-3 bytes discipline and format strings on the parse chains -------------------------------------
